@@ -27,7 +27,7 @@ def groups(sc, tier):
         d = ["-DSH=" + s]
         gs.append(Group("C11.K2.AugerYield_prdata." + s, "K2", "lemma_AugerYield_prdata", sources=srcs, export_local=True,
                         extra=["harness/h_auger.c", stub_y, common.STATE], harness_defines=d, backends=("cvc5",), timeout=600,
-                        unwind=8, functions=["AugerYield_prdata"], no_safety=True, stubs_used=used_y))
+                        unwind=8, functions=["AugerYield_prdata"], no_safety=True, stubs_used=used_y, flags=["--drop-unused-functions"]))
         gs.append(Group("C11.K2.AugerYield2_prdata." + s, "K2", "lemma_AugerYield2_prdata", sources=srcs, export_local=True,
                         extra=["harness/h_auger.c", stub_y, common.STATE], harness_defines=d, backends=("cvc5",), timeout=900,
                         unwind=120, functions=["AugerYield2_prdata"], no_safety=True))
